@@ -218,7 +218,12 @@ Gen(T) ==
              V == Members(T.vt) IN
          IF K = {} THEN {}
          ELSE { MkDict(<< <<Pick1(K), p>> >>) : p \in Gen(T.vt) } \cup
-              { MkDict(<< <<p, Pick1(V)>> >>) : p \in {g \in Gen(T.kt) : KeyAble(g)} }
+              { MkDict(<< <<p, Pick1(V)>> >>) : p \in {g \in Gen(T.kt) : KeyAble(g)} } \cup
+              \* two different keys that CONVERT to equal keys (1.5 and '1.50' as decimals): the verdict is left open,
+              \* the two passes, the error tree and the input's integrity are not
+              { MkDict(<< <<q[1], Pick1(V)>>, <<q[2], Pick2(V)>> >>) :
+                  q \in { r \in K \X K : ~PyEq(r[1], r[2]) /\ Verdict(T.kt, r[1]) = "A" /\ Verdict(T.kt, r[2]) = "A"
+                                          /\ PyEq(Img(T.kt, r[1]), Img(T.kt, r[2])) } }
     [] T.k = "counter" ->
          LET K == {m \in Members(T.kt) : KeyAble(m)} IN
          IF K = {} THEN {}
